@@ -17,7 +17,7 @@ EXPLANATION = (
     "map are mutated together with swapped key/value; a despawn removes the map entry it despawns. R6: despawn / removal records are written for every client that "
     "may hold the entity (filter accepts Visible; Gained may be left out only while the state-machine exploration establishes `Gained => not held`), change records "
     "for every not-hidden client. R7: first-sight completeness (rules/first_sight.py).")
-NOT_DECIDED = "atomicity and ordering over histories; the removal-then-despawn zombie (D12) lives in the buffer state machines and is not detected (the visibility state machine is decided by C08.R5)"
+NOT_DECIDED = "atomicity and ordering over arbitrary histories beyond the cross-buffer rule R9 (D12, found and fixed) and the visibility state machine (C08.R5)"
 TRUSTED_BASE = ["bitflags iter_names yields named flags in declaration order", "the update channel is reliable and ordered (C01.R8)"]
 
 UPD = "bevy_replicon::server::replication_messages::updates::Updates"
